@@ -596,6 +596,12 @@ def oracle_run(job, lines):
                 stats["stored"] += 1
                 if d.objid != "same":
                     fails.append(("objective", "solution %d carries an objective that is not the problem's" % r.idx))
+                infinite = (r.cost == -INF) if kind in MAXIMIZING else (r.cost == INF)
+                if infinite and not math.isinf(d.true):
+                    # reported with the objective's infiniteCost() although the path has a finite cost
+                    fails.append(("stored-infinite", "stored cost is the infinite cost %r although the reported path costs %r (optimized_=%s) (%s)" %
+                                  (r.cost, d.true, r.opt, d.text)))
+                    continue
                 if not not_better_tol(better, r.cost, d.true):
                     fails.append(("stored-better", "stored cost %r is better than the true cost %r of the reported path (%s)" % (r.cost, d.true, d.text)))
                 elif not close(r.cost, d.true, TOL):
@@ -669,9 +675,9 @@ def make_jobs(ck, rng):
                 jobs.append({"planner": planner, "obj": "len", "field": 0, "thr": t, "env": envs[j], "dim": dim, "seed": r.range(1, 10 ** 6),
                              "evals": evals, "solves": r.choice([2, 2, 3]) if j != 1 else r.choice([1, 2]), "gthr": f2bits(gthr)})
             if general:
-                # a state-cost integral (cost noticeably above the length) with a threshold between typical
-                # lengths and typical costs: separates "satisfied by the stored cost" from "by the length"
-                jobs.append({"planner": planner, "obj": "sci", "field": 1, "thr": f2bits(r.choice([1.7, 1.8, 1.9, 2.0])), "env": r.choice([0, 1, 4]),
+                # a state-cost integral (field 1 + x^2: cost >= ~1.47 here, lengths 1.13-1.4) with a threshold between
+                # typical lengths and the optimal cost: separates "satisfied by the stored cost" from "by the length"
+                jobs.append({"planner": planner, "obj": "sci", "field": 1, "thr": f2bits(r.choice([1.25, 1.3, 1.35, 1.4])), "env": r.choice([0, 0, 1]),
                              "dim": 2, "seed": r.range(1, 10 ** 6), "evals": max(evals // 2, 800), "solves": 2, "gthr": g_small})
                 kinds = [r.choice(OBJ_KINDS_RUN)] if ck.tier == "quick" else OBJ_KINDS_RUN
                 for kind in kinds:
@@ -737,7 +743,7 @@ def judge_runs(ck, hbin, jobs):
                 chk_src[mode].append(job)
         seen = set()
         for kind, what in fails:
-            if kind in seen:
+            if kind in seen or len(ck.violations) >= 12:
                 continue
             seen.add(kind)
             rec = {"engine": "soln", "part": "C", "kind": kind, "planner": job["planner"], "objective": job["obj"], "what": what}
